@@ -7,6 +7,7 @@ import importlib
 import json
 import multiprocessing
 import os
+import re
 import subprocess
 import sys
 import time
@@ -138,6 +139,8 @@ def _worker(kind, idx, tier):
             for k, spec in c.loops.items():
                 eng.loopspecs[(fname, k)] = spec
             r = verify.run_contract(eng, c)
+        elif kind == "sample":
+            r = run_samples(eng, _API.REGISTRY[idx], tier)
         elif kind == "lemma":
             from . import lemmas
             r = lemmas.run_lemma(eng, _API.LEMMAS[idx])
@@ -147,6 +150,77 @@ def _worker(kind, idx, tier):
         return ("ok", kind, idx, r)
     except Exception:  # noqa
         return ("crash", kind, idx, traceback.format_exc())
+
+
+def _native_buildable(v):
+    """a concretised input the native harness can rebuild faithfully (symbolic sequences whose elements were
+    never materialised, opaque reprs and concretisation errors cannot)"""
+    if isinstance(v, dict):
+        if v.get("t") in ("error", "repr"):
+            return False
+        if v.get("t") == "list" and any(isinstance(x, dict) and x.get("t") == "none" for x in v.get("items", [])):
+            return False          # element of a symbolic sequence the model never materialised
+        return all(_native_buildable(x) for x in v.values())
+    if isinstance(v, (list, tuple)):
+        return all(x is not None and _native_buildable(x) for x in v)
+    return True
+
+
+def run_samples(eng, c, tier):
+    """bounded companion of one contract: solver-sampled inputs satisfying its precondition, replayed on the REAL
+    code in a fresh process each, every clause of the contract evaluated natively"""
+    from . import verify
+    from .verify import TaskResult
+    label = "%s/%s" % (c.prop, c.short)
+    r = TaskResult(label + "[samples]")
+    generated = c.sample_budget
+    cases, per = (generated if generated is not None else (6 if tier == "thorough" else 3)), 2
+    t0 = time.time()
+    try:
+        ws = verify.sample_contract(eng, c, max_cases=cases, per_case=per)
+    except Exception:  # noqa
+        ws = []
+    d = os.path.join(VERIF, "replays", c.prop, "samples")
+    os.makedirs(d, exist_ok=True)
+    name = label + "/samples"
+    ws = [w for w in ws if w.get("model_complete") and _native_buildable(w.get("args"))
+          and _native_buildable(w.get("state"))]
+    n = 0
+    if ws:
+        path = os.path.join(d, re.sub(r"[^A-Za-z0-9_.@-]+", "_", c.short) + ".json")
+        with open(path, "w") as f:
+            json.dump(ws, f)
+        env = dict(os.environ, PYTHONPATH=REPO + os.pathsep + VERIF, PYTHONDONTWRITEBYTECODE="1")
+        try:
+            p = subprocess.run([sys.executable, "-u", "-m", "pyvc.replay", "--batch", path], capture_output=True,
+                               text=True, timeout=60 * len(ws) + 30, env=env, cwd=VERIF)
+            lines = [l for l in p.stdout.splitlines() if l.startswith("{")]
+        except subprocess.TimeoutExpired:
+            lines = []
+        for w, line in zip(ws, lines):
+            try:
+                rr = json.loads(line)
+            except Exception:  # noqa
+                continue
+            n += 1
+            if rr.get("confirmed") is True:
+                w2 = dict(w, obligation=label + "/sample", sample_detail=rr.get("detail"), outcome=rr.get("outcome"),
+                          exc=rr.get("exc"))
+                r.add(name, "refuted", backend="native", witness=w2, note=str(rr.get("detail"))[:300])
+            elif rr.get("confirmed") is False:
+                r.add(name, "valid", backend="native")
+            else:
+                # the harness could not run this input natively (not a verdict about the code)
+                r.add(name, "valid", backend="native-skipped", note=str(rr.get("detail"))[-200:])
+        try:
+            os.unlink(path)
+        except OSError:
+            pass
+    r.time = time.time() - t0
+    r.bounded = "solver-sampled inputs (up to %d typed cases x %d models) replayed on the real code" % (cases, per)
+    if n == 0:
+        r.obligs.pop(name, None)
+    return r
 
 
 def run_table(name, prop, fn):
@@ -291,6 +365,7 @@ def main(argv=None):
     ap.add_argument("--only", default=None, help="substring filter on contract labels (debug)")
     ap.add_argument("--verbose", "-v", action="store_true")
     ap.add_argument("--no-evidence", action="store_true")
+    ap.add_argument("--no-samples", action="store_true", help="skip the sampled-input companions")
     args = ap.parse_args(argv)
     tier = "thorough" if args.tier == "thorough" else "quick"
     os.environ["VERIF_TIER"] = tier          # tables (bounded companions) read their depth from it
@@ -314,6 +389,10 @@ def main(argv=None):
             if c.proof == "table":
                 continue          # assumed at call sites; discharged by a table obligation
             tasks.append(("contract", i))
+            # (a python-level `setup` hook has no run-time twin: such contracts are not sampled)
+            if c.sample_budget != 0 and c.setup is None and not os.environ.get("PYVC_NO_SAMPLES") \
+                    and not args.no_samples:
+                tasks.append(("sample", i))
     for i, l in enumerate(api.LEMMAS):
         if l.prop == prop and not (args.only and not any(x in l.name for x in args.only.split("|"))):
             tasks.append(("lemma", i))
@@ -328,7 +407,10 @@ def main(argv=None):
     crashes = []
     timed_out = []
     task_limit = float(os.environ.get("PYVC_TASK_LIMIT_S", "1500" if tier == "thorough" else "420")) * machine_scale()
-    results, crashes, timed_out = run_tasks(tasks, tier, args.jobs, task_limit, api)
+    # the proofs first, the sampled-input companions afterwards (they must not compete with the solvers for CPU)
+    results, crashes, timed_out = run_tasks([t for t in tasks if t[0] != "sample"], tier, args.jobs, task_limit, api)
+    r2, c2, t2 = run_tasks([t for t in tasks if t[0] == "sample"], tier, args.jobs, task_limit, api)
+    results, crashes = results + r2, crashes + c2          # a sample task that overran is simply not reported
 
     # ---- aggregate
     obligs = {}
